@@ -98,6 +98,8 @@ func (n *nonceSys) mutate(mut string) (string, error) {
 		return s[:len(s)-2], nil
 	case "extend":
 		return s + "00", nil
+	case "extendLong":
+		return s + "ZZZZZZZZZZ", nil
 	case "prefix":
 		return "1" + s, nil
 	case "badchars":
